@@ -19,7 +19,7 @@ for cfg in h.configs(tier,0):
     if pat not in cfg['name']: continue
     fails = {}; unk=[0]
     def fn(E_):
-        cx = SymCtx(E); shims.set_ctx(cx); shims.rng_fresh(); ufmodel.reset()
+        cx = SymCtx(E); shims.set_ctx(cx); shims.rng_fresh(); shims.restore_state(); ufmodel.reset()
         if verbose:
             orig = cx._exception
             def exc(label, ex, orig=orig): traceback.print_exc(); orig(label, ex)
